@@ -15,7 +15,7 @@ import re
 from .. import sym, irrules
 from ..sym import const_of, single_atom, atom, L, lin_sub, lin_add, lin_scale
 from ..irrules import Report, base_name, obj_of, where
-from .ir_bounds import cmp_atom, is_max_term, bounded
+from .ir_bounds import cmp_atom, is_max_term, bounded, facts, known_lt, known_le
 from .ir_pair import class_n
 
 THIS = ((('arg', 0), 1),)
@@ -38,41 +38,34 @@ def is_public(f):
 
 
 def evidence_gt(cap0, size0, s, st):
-    """path evidence for cap0 < s"""
-    for (c, v) in st.conds:
-        a = cmp_atom(c)
-        if a is None:
-            continue
-        pred, x, y = a[1], a[2], a[3]
-        if pred == 'ult' and v is True and x == cap0 and y == s:
-            return 'capacity < new size'
-        if pred == 'ule' and v is False and x == s and y == cap0:
-            return 'not (new size <= capacity)'
-        if pred == 'ult' and v is True and x == lin_sub(cap0, size0) and lin_add(size0, y) == s:
+    """path evidence for cap0 < s (any spelling of the test)"""
+    fs = facts(st)
+    if known_lt(fs, cap0, s):
+        return 'capacity < new size'
+    free = lin_sub(cap0, size0)
+    for (kind, x, y) in fs:
+        if kind == 'lt' and x == free and lin_add(size0, y) == s:
             return 'capacity - size < count'
-        if pred == 'ult' and v is False and x == size0 and y == cap0 and s == lin_add(size0, L(1)):
-            return 'not (size < capacity), one element added'
+    if s == lin_add(size0, L(1)) and known_le(fs, cap0, size0) and cap0 != size0:
+        return 'capacity <= size, one element added'
     return None
 
 
 def evidence_le(cap0, size0, s, st, ncls=None):
     """path evidence for s <= cap0"""
-    for (c, v) in st.conds:
-        a = cmp_atom(c)
-        if a is None:
-            continue
-        pred, x, y = a[1], a[2], a[3]
-        if pred == 'ult' and v is False and x == cap0 and y == s:
-            return 'not (capacity < new size)'
-        if pred == 'ule' and v is True and x == s and y == cap0:
-            return 'new size <= capacity'
-        if pred == 'ult' and v is False and x == lin_sub(cap0, size0) and lin_add(size0, y) == s:
-            return 'not (capacity - size < count)'
-        if pred == 'ult' and v is True and x == size0 and y == cap0 and s == lin_add(size0, L(1)):
-            return 'size < capacity, one element added'
-        if ncls is not None and pred == 'ult' and v is False and y == s and const_of(x) is not None \
-                and const_of(x) <= ncls:
+    fs = facts(st)
+    if known_le(fs, s, cap0) and s != cap0:
+        return 'new size <= capacity'
+    if s == cap0:
+        return 'new size == capacity'
+    free = lin_sub(cap0, size0)
+    for (kind, x, y) in fs:
+        if kind == 'le' and y == free and lin_add(size0, x) == s:
+            return 'count <= capacity - size'
+        if ncls is not None and kind == 'le' and x == s and const_of(y) is not None and const_of(y) <= ncls:
             return 'new size <= inline capacity <= capacity (invariant capacity >= inline capacity)'
+    if s == lin_add(size0, L(1)) and known_lt(fs, size0, cap0):
+        return 'size < capacity, one element added'
     return None
 
 
@@ -87,11 +80,7 @@ def guard_tested(st, cap0, size0):
     compared with something that is not derived from max_size)?  The growth computation's own
     comparisons (max - capacity <= capacity, 2*capacity < required) are not guards."""
     free = lin_sub(cap0, size0)
-    for (c, v) in st.conds:
-        a = cmp_atom(c)
-        if a is None:
-            continue
-        x, y = a[2], a[3]
+    for (kind, x, y) in facts(st):
         for u, w in ((x, y), (y, x)):
             if (u == cap0 or u == free) and not has_max(w) and const_of(w) is None:
                 return True
@@ -219,13 +208,9 @@ class GrowthRule(sym.Rule):
             if Sf == size0 and not self.other_family:
                 # capacity-only operation (reserve): needed iff capacity < request
                 ev = None
-                for (c, v) in st.conds:
-                    a = cmp_atom(c)
-                    if a is None:
-                        continue
-                    if (a[1] == 'ult' and v is True and a[2] == cap0) or (a[1] == 'ule' and v is False and a[3] == cap0):
-                        x = a[3] if a[1] == 'ult' else a[2]
-                        if Cf == x or is_max_term(Cf) or self._ge(Cf, x, st, cap0):
+                for (kind, x, y) in facts(st):
+                    if kind == 'lt' and x == cap0:
+                        if Cf == y or is_max_term(Cf) or self._ge(Cf, y, st, cap0):
                             ev = 'capacity < request and new capacity >= request'
                 if ev is None and not exempt:
                     self._rep('R10.1', False, f, 'reallocation without evidence that the request exceeds the capacity',
@@ -269,17 +254,7 @@ class GrowthRule(sym.Rule):
                 self._rep('R10.2', True, f, 'inplace', sample={'evidence': e})
 
     def _ge(self, big, small, st, cap0):
-        if big == small:
-            return True
-        for (c, v) in st.conds:
-            a = cmp_atom(c)
-            if a is None:
-                continue
-            if a[1] == 'ult' and v is False and a[2] == big and a[3] == small:
-                return True
-            if a[1] == 'ule' and v is True and a[2] == small and a[3] == big:
-                return True
-        return False
+        return known_le(facts(st), small, big)
 
     def _growth(self, f, st, cap0, size0, Cf, Sf):
         # G1: capacity >= committed size
@@ -299,10 +274,8 @@ class GrowthRule(sym.Rule):
         elif is_max_term(Cf):
             g2 = 'saturated at max_size'
         else:
-            for (c, v) in st.conds:
-                a = cmp_atom(c)
-                if a and a[1] == 'ult' and v is True and a[2] == two and a[3] == Cf:
-                    g2 = 'required size larger than twice the capacity'
+            if known_lt(facts(st), two, Cf):
+                g2 = 'required size larger than twice the capacity'
         if g2 is None:
             self._rep('R14.1', False, f, 'reallocation that is not geometric',
                       'the new capacity is neither 2 x old capacity, nor a required size above that, nor max_size',
